@@ -22,9 +22,10 @@ func (d Dict) render(f *File, w io.Writer, s *Statement) error {
 	first := true
 	// must order keys to ensure repeatable source
 	type kv struct {
-		text string
-		k    Code
-		v    Code
+		order string
+		text  string
+		k     Code
+		v     Code
 	}
 	// pairs are kept in a slice: distinct keys may render to the same text
 	pairs := []kv{}
@@ -32,11 +33,22 @@ func (d Dict) render(f *File, w io.Writer, s *Statement) error {
 		if k == nil || v == nil || k.isNull(f) || v.isNull(f) {
 			continue
 		}
-		buf := &bytes.Buffer{}
-		if err := k.render(f, buf, nil); err != nil {
+		// Rendering a key may register imports, and the names they get depend on the
+		// order of registration. The map is iterated in random order, so the pairs are
+		// first put into an order that only depends on their content.
+		order, err := d.order(k, v)
+		if err != nil {
 			return err
 		}
-		pairs = append(pairs, kv{text: buf.String(), k: k, v: v})
+		pairs = append(pairs, kv{order: order, k: k, v: v})
+	}
+	sort.Slice(pairs, func(i, j int) bool { return pairs[i].order < pairs[j].order })
+	for i := range pairs {
+		buf := &bytes.Buffer{}
+		if err := pairs[i].k.render(f, buf, nil); err != nil {
+			return err
+		}
+		pairs[i].text = buf.String()
 	}
 	sort.SliceStable(pairs, func(i, j int) bool { return pairs[i].text < pairs[j].text })
 	for _, p := range pairs {
@@ -64,6 +76,34 @@ func (d Dict) render(f *File, w io.Writer, s *Statement) error {
 		}
 	}
 	return nil
+}
+
+// order renders a pair against a blank file and returns a string that orders pairs independently
+// of map iteration order and of the state of f (so that rendering again gives the same order):
+// the text of the key and of the value, followed by the paths they refer to and the names those
+// get in isolation.
+func (d Dict) order(k, v Code) (string, error) {
+	tmp := NewFile("")
+	buf := &bytes.Buffer{}
+	if err := k.render(tmp, buf, nil); err != nil {
+		return "", err
+	}
+	buf.WriteByte(0)
+	if err := v.render(tmp, buf, nil); err != nil {
+		return "", err
+	}
+	paths := []string{}
+	for path := range tmp.imports {
+		paths = append(paths, path)
+	}
+	sort.Strings(paths)
+	for _, path := range paths {
+		buf.WriteByte(0)
+		buf.WriteString(path)
+		buf.WriteByte(0)
+		buf.WriteString(tmp.imports[path].name)
+	}
+	return buf.String(), nil
 }
 
 func (d Dict) isNull(f *File) bool {
